@@ -389,15 +389,52 @@ func runC01(c *core.Ctx) {
 		exact := r.Intn(2) == 0
 		b := gen.RandomBook(r, gen.BookOpts{Recipes: 2 + r.Intn(9), Basics: 1 + r.Intn(4), MaxDepth: 1 + r.Intn(5), Exact: exact, Redeclare: i%5 == 0,
 			Names: gen.NameOpts{Unicode: true, Spaces: true, Slash: true, Punct: ".,;'()&%+*=!?@_-\"#"}})
+		st := gen.Hostile(r)
+		var logStyle *gen.Style
+		var confArgs []string
+		conf := ""
+		if i%6 == 3 {
+			// a book kept under another comment character (configuration file, [ParserConfig] CommentChar): its comment
+			// lines begin with that byte, and '#' is an ordinary first character of a recipe's name
+			cc := []byte{';', '/', '`', '%', '!', 0xa7, 0xff}[r.Intn(7)]
+			clash := false
+			for _, rec := range b {
+				clash = clash || rec.Name[0] == cc
+				for _, e := range rec.Ents {
+					clash = clash || e.Name[0] == cc
+				}
+			}
+			if !clash {
+				old, renamed := b[0].Name, "#"+b[0].Name
+				for bi := range b {
+					if b[bi].Name == old {
+						b[bi].Name = renamed
+					}
+					for ei := range b[bi].Ents {
+						if b[bi].Ents[ei].Name == old {
+							b[bi].Ents[ei].Name = renamed
+						}
+					}
+				}
+				st.Comment, st.Quotes = cc, false
+				logStyle = &gen.Style{Comment: cc}
+				conf = fmt.Sprintf("[ParserConfig]\nCommentChar=%d\n", cc)
+				confArgs = []string{"--config", "hr.conf"}
+				c.Count("cli_books_under_another_comment_character", 1)
+			}
+		}
 		want := model.Resolve(b)
 		abs := model.AbsPaths(b)
-		text := gen.RenderBook(b, gen.Hostile(r))
+		text := gen.RenderBook(b, st)
 		files := map[string]string{"food.yaml": text, "log.yaml": ""}
+		if conf != "" {
+			files["hr.conf"] = conf
+		}
 		srv.Write(files)
 		longest, _ := model.Chain(b)
 
 		// csv database-resolved
-		args := []string{"--no-color", "-d", "food.yaml", "-l", "log.yaml", "csv", "database-resolved"}
+		args := append(append([]string{}, confArgs...), "--no-color", "-d", "food.yaml", "-l", "log.yaml", "csv", "database-resolved")
 		res := srv.App1(args, nil)
 		c.Eval(1)
 		c.Count("cli_csv_database_resolved", 1)
@@ -456,7 +493,7 @@ func runC01(c *core.Ctx) {
 		sort.Strings(basics)
 		if len(basics) > 0 {
 			x := basics[r.Intn(len(basics))]
-			args := []string{"--no-color", "-d", "food.yaml", "-l", "log.yaml", "report", "element-total", x}
+			args := append(append([]string{}, confArgs...), "--no-color", "-d", "food.yaml", "-l", "log.yaml", "report", "element-total", x)
 			res := srv.App1(args, nil)
 			c.Eval(1)
 			c.Count("cli_element_total", 1)
@@ -494,10 +531,10 @@ func runC01(c *core.Ctx) {
 		if len(b) > 0 {
 			rn := b[r.Intn(len(b))].Name
 			if _, defined := want[rn]; defined && len(want[rn]) > 0 && indexElem(want[rn], rn) < 0 {
-				lfiles := map[string]string{"logr.yaml": gen.RenderLog(gen.Log{{Date: gen.Date{Y: 2021, M: 1, D: 24}, Ents: []gen.Ent{{Name: rn, Val: gen.Half(4)}}}}, "2006/01/02", nil)}
+				lfiles := map[string]string{"logr.yaml": gen.RenderLog(gen.Log{{Date: gen.Date{Y: 2021, M: 1, D: 24}, Ents: []gen.Ent{{Name: rn, Val: gen.Half(4)}}}}, "2006/01/02", logStyle)}
 				srv.Write(lfiles)
 				for _, extra := range [][]string{nil, {"--csv"}, {"-g"}} {
-					sargs := append([]string{"--no-color", "-d", "food.yaml", "-l", "logr.yaml", "reg", "-s", rn}, extra...)
+					sargs := append(append(append([]string{}, confArgs...), "--no-color", "-d", "food.yaml", "-l", "logr.yaml", "reg", "-s", rn), extra...)
 					sres := srv.App1(sargs, nil)
 					c.Eval(1)
 					c.Count("cli_recipe_name_as_single_element", 1)
@@ -513,10 +550,10 @@ func runC01(c *core.Ctx) {
 		// expanded into its (zero) elements and does not stand for itself
 		for _, rec := range b {
 			if es, defined := want[rec.Name]; defined && len(es) == 0 {
-				lfiles := map[string]string{"loge.yaml": gen.RenderLog(gen.Log{{Date: gen.Date{Y: 2021, M: 1, D: 24}, Ents: []gen.Ent{{Name: rec.Name, Val: gen.Half(4)}}}}, "2006/01/02", nil)}
+				lfiles := map[string]string{"loge.yaml": gen.RenderLog(gen.Log{{Date: gen.Date{Y: 2021, M: 1, D: 24}, Ents: []gen.Ent{{Name: rec.Name, Val: gen.Half(4)}}}}, "2006/01/02", logStyle)}
 				srv.Write(lfiles)
 				for ri, rr := range regRenderers {
-					eargs := append([]string{"--no-color", "-d", "food.yaml", "-l", "loge.yaml"}, rr.args...)
+					eargs := append(append(append([]string{}, confArgs...), "--no-color", "-d", "food.yaml", "-l", "loge.yaml"), rr.args...)
 					eres := srv.App1(eargs, nil)
 					c.Eval(1)
 					c.Count("cli_recipe_that_resolves_to_nothing", 1)
